@@ -72,8 +72,12 @@ def c05_shape():
     for x in q["fields"]:
         ren = [a for a in x["attrs"] if "rename=" in a]
         names.append(ren[0].split('rename="')[1].split('"')[0] if ren else x["name"])
-    return [ob("C05.1.query_body_members", sorted(names) == ["operationName", "query", "variables"] and has_attr(q["attrs"], "Serialize"),
-               "QueryBody serializes exactly the members variables, query, operationName", json.dumps(names))]
+    # A-serde: a member is always written unless an attribute says otherwise: the only attribute a member may carry is its rename
+    extra = [(x["name"], a) for x in q["fields"] for a in x["attrs"] if "rename=" not in a]
+    cont = [a for a in q["attrs"] if a.replace(" ", "").startswith("serde(") and "rename" not in a]
+    return [ob("C05.1.query_body_members", sorted(names) == ["operationName", "query", "variables"] and has_attr(q["attrs"], "Serialize") and not extra and not cont,
+               "QueryBody serializes exactly the members variables, query, operationName - unconditionally (no skip / flatten / default attribute on a member or on the struct)",
+               json.dumps({"names": names, "other_member_attributes": extra, "container": cont}))]
 
 
 # replay families that are clean on the unchanged tree and cheap: run on every check as a bounded part (never counted as proved).
